@@ -20196,7 +20196,13 @@ impl<
 						num_updates_completed,
 					);
 				}
-				let all_updates_completed = num_updates_completed == $chan_in_flight_upds.len();
+				// A `ChannelMonitor` which no longer allows updates never has the updates it was
+				// still handed reported as completed before the event closing the channel is
+				// processed (see `ChainMonitor::update_channel`). Don't resume the channel here
+				// either, it may otherwise revoke the commitment transaction the
+				// `ChannelMonitor` has broadcast.
+				let all_updates_completed = num_updates_completed == $chan_in_flight_upds.len()
+					&& !$monitor.no_further_updates_allowed();
 
 				let funding_txo = $monitor.get_funding_txo();
 				if all_updates_completed {
